@@ -108,7 +108,13 @@ def make_case(unit):
     tr = {}
     if g.chance(0.7):
         cases.attach_insertions(g, facets, tr, hide_some=False, n=g.r.randint(2, 4))
-    w = g.weights(N, g.pick(["none", "frac", "zeros"]))
+    wmode = g.pick(["none", "frac", "zeros"])
+    if gen.stratum(ID, i, "wscale", 5) == 0:
+        # weights far below 1e-8 / of mixed magnitude: sort values (weighted counts, bases,
+        # sums) that differ only far below any fixed number of decimals must still be told
+        # apart - the order has to follow the values shown, whatever their scale
+        wmode = ["tiny", "scales"][gen.stratum(ID, i, "wscale2", 2)]
+    w = g.weights(N, wmode)
     forced = None
     if "numarr" in template:
         spec = sim.CubeSpec(facets, w, ("mean", "sum"))
